@@ -20,12 +20,12 @@ open Primitiv.Gen.Elementwise Primitiv.Analysis
 local macro "ew_tac" a:ident b:ident : tactic =>
   `(tactic| (
     unfold $a $b
-    simp only [lit_zero, lit_one, lit_half, fns_exp, fns_log, fns_tanh, fns_sqrt, fns_sin, fns_cos, fns_tan,
-      fns_abs, fns_sign, fns_pow, sgn, gt_iff_lt]
+    (try simp only [lit_zero, lit_one, lit_half, fns_exp, fns_log, fns_tanh, fns_sqrt, fns_sin, fns_cos, fns_tan,
+      fns_abs, fns_sign, fns_pow, sgn, gt_iff_lt]) <;>
     first
       | rfl
-      | ring
-      | (split_ifs <;> first | ring | (exfalso; linarith) | (simp; try ring))))
+      | ring1
+      | (split_ifs <;> first | ring1 | (exfalso; linarith) | (simp <;> ring1))))
 
 namespace Elementwise
 
